@@ -146,7 +146,13 @@ pub enum Action {
     /// still running (the interleaving a second runtime thread would produce)
     CancelFromOutput { party: usize, comp: u64 },
     /// a second schedule call with the party's own policy
-    DupSchedule { party: usize, comp: u64 },
+    DupSchedule {
+        party: usize,
+        comp: u64,
+        /// the second request carries this program template instead of the party's own
+        #[serde(default, skip_serializing_if = "Option::is_none")]
+        template: Option<u8>,
+    },
     StrayRun { party: usize, comp: u64 },
     StrayConsts { party: usize, comp: u64, from: usize },
     StrayValidate { party: usize, comp: u64 },
@@ -1088,9 +1094,13 @@ fn fire_injection(
                     let nodes = nodes.clone();
                     let (what, path, body): (&str, String, Vec<u8>) = match &action {
                         Action::Cancel { .. } | Action::CancelFromOutput { .. } => ("cancel", String::new(), vec![]),
-                        Action::DupSchedule { party, comp } => {
-                            let ps = policies.iter().find(|x| x.comp == *comp).unwrap();
-                            ("dup-schedule", "/schedule".into(), serde_json::to_vec(&policy_for(ps, *party, n)).unwrap())
+                        Action::DupSchedule { party, comp, template } => {
+                            let mut ps = policies.iter().find(|x| x.comp == *comp).unwrap().clone();
+                            if let Some(t) = template {
+                                ps.template_at = vec![None; n];
+                                ps.template_at[*party] = Some(*t);
+                            }
+                            ("dup-schedule", "/schedule".into(), serde_json::to_vec(&policy_for(&ps, *party, n)).unwrap())
                         }
                         Action::StrayRun { comp, .. } => ("stray-run", "/run".into(), serde_json::to_vec(&RunRequest { computation_id: comp_uuid(*comp) }).unwrap()),
                         Action::StrayConsts { comp, from, .. } => {
@@ -1107,7 +1117,7 @@ fn fire_injection(
                     let (party, comp) = match &action {
                         Action::Cancel { party, comp }
                         | Action::CancelFromOutput { party, comp }
-                        | Action::DupSchedule { party, comp }
+                        | Action::DupSchedule { party, comp, .. }
                         | Action::StrayRun { party, comp }
                         | Action::StrayConsts { party, comp, .. }
                         | Action::StrayValidate { party, comp }
@@ -1150,9 +1160,13 @@ fn fire_injection(
                         let idx = record_call(hub, "cancel", party, comp);
                         hub.lock().unwrap().cancel_on_output.push((party, comp, idx));
                     }
-                    Action::DupSchedule { party, comp } => {
+                    Action::DupSchedule { party, comp, template } => {
                         let idx = record_call(&hub, "dup-schedule", party, comp);
-                        let ps = policies.iter().find(|x| x.comp == comp).unwrap().clone();
+                        let mut ps = policies.iter().find(|x| x.comp == comp).unwrap().clone();
+                        if let Some(t) = template {
+                            ps.template_at = vec![None; n];
+                            ps.template_at[party] = Some(t);
+                        }
                         tasks.push(rt.spawn(async move {
                             let h = get_or_insert(&hub2, &sems2, party, comp);
                             let r = h.schedule(policy_for(&ps, party, n)).await;
